@@ -11,7 +11,7 @@ Import ListNotations.
 
 (* ---- sliceArrayOperator: .[first:second] ---------------------------- *)
 
-(* since fix cbdb35c (start clamped to 0) the slice loop never indexes out of
+(* since fix 98d1fab (start clamped to 0) the slice loop never indexes out of
    range: for every content and every pair of bounds the result is the
    sub-list between the normalised bounds *)
 Theorem C11_slice_no_panic : forall (A : Type) (content : list A) (first second : Z) (s : psite),
@@ -27,7 +27,7 @@ Theorem C11_slice_result : forall (A : Type) (content : list A) (first second : 
 Proof. exact @slice_array_spec. Qed.
 Print Assumptions C11_slice_result.
 
-(* slicing a map is an error (fix ed8fc74), anything else goes through slice_array *)
+(* slicing a map is an error (fix 500bb97), anything else goes through slice_array *)
 Theorem C11_slice_node_no_panic : forall (A : Type) (is_map : bool) (content : list A) (first second : Z) (s : psite),
   slice_node is_map content first second <> Panic s.
 Proof. exact @slice_node_no_panic. Qed.
@@ -73,7 +73,7 @@ Theorem C11_traverse_rhs_front_unreachable : forall (A : Type) (context : list A
 Proof. exact @traverse_rhs_no_panic. Qed.
 Print Assumptions C11_traverse_rhs_front_unreachable.
 
-(* since fix abd2cdf the padding loop adds at most pad_limit = 10^6 nodes
+(* since fix 4925660 the padding loop adds at most pad_limit = 10^6 nodes
    (.[9223372036854775807] is an error now) *)
 Theorem C11_index_padding_bounded : forall (A : Type) (null : A) (content : list A) (index : Z) (x : A) (padded : list A),
   traverse_index null content index = Ok (x, padded) ->
@@ -83,7 +83,7 @@ Print Assumptions C11_index_padding_bounded.
 
 (* ---- collectObjectOperator: rotation --------------------------------- *)
 
-(* since fix 8c76b15 (entries shorter than the first one are an error) *)
+(* since fix c783875 (entries shorter than the first one are an error) *)
 Theorem C11_collect_object_no_panic : forall (A : Type) (cands : list (list A)) (s : psite),
   rotate cands <> Panic s.
 Proof. exact @rotate_no_panic. Qed.
@@ -102,7 +102,7 @@ Print Assumptions C11_collect_object_unchecked_refuted.
 
 (* ---- repeatString ----------------------------------------------------- *)
 
-(* since fix e5c76bb (product limit) no allocation above 10^8 bytes is asked for *)
+(* since fix 3108f38 (product limit) no allocation above 10^8 bytes is asked for *)
 Theorem C11_repeat_no_panic : forall (mem slen count : Z) (s : psite),
   (repeat_bytes_limit <= mem)%Z -> (0 <= slen)%Z -> repeat_string mem slen count <> Panic s.
 Proof. exact repeat_no_panic. Qed.
@@ -131,7 +131,7 @@ Print Assumptions C11_alias_unfold_total_acyclic.
 
 (* a graph in which an alias points to a node that contains it is not
    acyclic, and following it never ends, whatever the fuel.  The YAML reader
-   rejects such documents since fix c43bba9 (`- &a [*a]`); assignments can
+   rejects such documents since fix af4915a (`- &a [*a]`); assignments can
    still build one (.b = .d with d: *x and b: &x), which stays a known finding *)
 Theorem C11_alias_cycle_refuted :
   ~ acyclic self_ref_env /\ forall fuel, unfold fuel self_ref_env (AAlias 0) = OutOfFuel.
